@@ -19,16 +19,74 @@ from harness.pool import pmap
 
 PROP = "C06"
 
-LAW_INVS = ["Linear", "OneGivesTotal", "ShapeEffect", "RejectsOthers", "SizeRuleDiffersOnlyOnCoincidence", "Positive", "EditIsolation", "SubsetLaws", "OwnMeshesOK", "EmitOwnOnce"]
+LAW_INVS = ["Linear", "OneGivesTotal", "ShapeEffect", "RejectsOthers", "SizeRuleDiffersOnlyOnCoincidence", "Positive", "EditIsolation", "SubsetLaws", "ScaleLaw", "OwnMeshesOK", "EmitOwnOnce"]
+
+
+SCALES = [30, 1000, 30000, 300000]      # 6M lattice units to the axis: cells of 5.5e-3 ... 5.5e-7 rad
 
 
 def _consts(maxf, vals, wts, quads, prevs, areas_return="fresh"):
     q = lambda xs: "{%s}" % ",".join('"%s"' % x for x in xs)
-    return "CONSTANTS\n AreasReturn = \"%s\"\n MaxF = %d\n Vals = {%s}\n Wts = {%s}\n Quads = %s\n Prevs = %s\n" % (areas_return, maxf, ",".join(map(str, vals)), ",".join(map(str, wts)), q(quads), q(prevs))
+    return "CONSTANTS\n Scales = {%s}\n AreasReturn = \"%s\"\n MaxF = %d\n Vals = {%s}\n Wts = {%s}\n Quads = %s\n Prevs = %s\n" % (",".join(map(str, SCALES)), areas_return, maxf, ",".join(map(str, vals)), ",".join(map(str, wts)), q(quads), q(prevs))
 
 
 def _nproc():
     return int(os.environ.get("VERIF_NPROC", "0")) or min(16, os.cpu_count() or 4)
+
+
+def dims_stage(ctx, thorough, workers):
+    """Two (three) grids opened one after the other in ONE process: DimsProcess.tla."""
+    def cfg(scope, n, invs):
+        return 'SPECIFICATION Spec\nCONSTANTS\n DictScope = "%s"\n MaxOpens = %d\n' % (scope, n) + "".join("INVARIANT %s\n" % i for i in invs) + "CHECK_DEADLOCK FALSE\n"
+
+    n = 3 if thorough else 2
+    r = ctx.tlc_ok("DimsProcess", cfg("per_grid", n, ["NodeDataRejected", "FaceDataIntegrated", "TemplatesConstant", "HistoryFree", "EmitFull"]), what="open_dataset histories over %d grids in one process, per-grid dimension dictionaries" % n, workers=2, timeout=600)
+    hists = [v[1] for v in X.prints(r.out) if v[0] == "H"]
+    if not hists:
+        raise Machinery("DimsProcess emitted no history")
+    for inv in ("NodeDataRejected", "TemplatesConstant"):
+        rr = ctx.tlc("DimsProcess", cfg("module", 2, [inv]), what="a module-level dimension dictionary must violate %s" % inv, workers=2, count=False, timeout=600)
+        if rr.violated != inv:
+            raise Machinery("DimsProcess with DictScope = module: expected %s to be violated, got %r" % (inv, rr.violated))
+    files = {}
+    ddir = os.path.join(ctx.work, "dims")
+    os.makedirs(ddir, exist_ok=True)
+    items = []
+    for k, h in enumerate(hists):
+        opens = [[st["act"][0], sorted(st["act"][1])] for st in h]
+        for fmt, kinds in opens:
+            key = "%s|%s" % (fmt, "+".join(kinds))
+            if key not in files:
+                files[key] = os.path.join(ddir, key.replace("|", "_").replace("+", "_") + ".nc")
+                Y.dims_write_data(files[key], fmt, kinds)
+        items.append({"id": "dims:%d" % k, "opens": opens, "files": files})
+    for it in items:
+        it["files"] = dict(files)
+    traces = pmap(Y.dims_case, items)
+    for t in traces:
+        if "machinery" in t:
+            raise Machinery(t["machinery"])
+    path = os.path.join(ctx.work, "dims.ndjson")
+    with open(path, "w") as fh:
+        for t in traces:
+            fh.write(json.dumps({"id": t["id"], "steps": [{k: s[k] for k in ("fmt", "data", "obs", "templates_changed")} for s in t["steps"]]}) + "\n")
+    res = ctx.tlc_ok("DimsProcess", 'INIT TrInit\nNEXT TrNext\nCONSTANTS\n DictScope = "per_grid"\n MaxOpens = 0\nINVARIANT TrJudge\nCHECK_DEADLOCK FALSE\n', what="judge %d recorded two-grid histories" % len(traces), env={"REC_FILE": path}, workers=2, count=False, timeout=600)
+    if res.distinct < len(traces):
+        raise Machinery("dims judge visited %d states for %d traces" % (res.distinct, len(traces)))
+    os.remove(path)
+    ctx.traces += len(traces)
+    by = {t["id"]: t for t in traces}
+    item_by = {it["id"]: it for it in items}
+    for v in X.prints(res.out):
+        if v[0] == "V":
+            for step, clause in sorted(v[2]):
+                st = by[v[1]]["steps"][step - 1]
+                ctx.violation("%s@%d" % (v[1], step), clause, detail={"opens": item_by[v[1]]["opens"], "step": step, "observed": st},
+                              sig={"fmt": st["fmt"], "after": [o[0] for o in item_by[v[1]]["opens"][: step - 1]]}, replay={"kind": "dims", "opens": item_by[v[1]]["opens"]})
+    for t in traces:
+        ctx.count(1, "dims:" + json.dumps(item_by[t["id"]]["opens"]))
+    ctx.note("two_grid_histories", len(traces))
+    return traces
 
 
 def run(ctx):
@@ -51,16 +109,24 @@ def run(ctx):
     rr = ctx.tlc("Integrate", "INIT LawInit\nNEXT LawNext\n" + _consts(2, [0, 3], [1, 3], quads, prevs, "cached") + "INVARIANT EditIsolation\nCHECK_DEADLOCK FALSE\n", what="a grid that hands out its stored areas must violate EditIsolation", workers=2, count=False, timeout=600)
     if rr.violated != "EditIsolation":
         raise Machinery("Integrate with AreasReturn = cached: expected EditIsolation to be violated, got %r" % rr.violated)
-    own = None
+    own, fans = None, None
     for v in X.prints(r.out):
         if v[0] == "M":
             own = [dict(m) for m in v[1]]
+            fans = dict(v[2])
     if not own:
         raise Machinery("Integrate.tla did not emit its coincident-size meshes")
     meshes = []
     for m in own:
         fs = [list(f) for f in m["faces"]]
-        meshes.append({"id": m["id"], "nodes": [list(n) for n in m["nodes"]], "faces": fs, "nf": m["nf"], "nn": m["nn"], "ne": m["ne"], "mixed": len(set(map(len, fs))) > 1})
+        meshes.append({"id": m["id"], "nodes": [list(n) for n in m["nodes"]], "faces": fs, "nf": m["nf"], "nn": m["nn"], "ne": m["ne"], "mixed": len(set(map(len, fs))) > 1, "scalable": m["id"] == "patch6_tri_quad"})
+        if m["id"] == "patch6_tri_quad":
+            # the harness's integer evaluation of the exact-area descriptor must reproduce TLC's at M = 1, 2, 5
+            for M_, per_face in fans.items():
+                for k_, f_ in enumerate(fs):
+                    mine = X.fan_descr([X.shrink_x(int(M_), tuple(m["nodes"][v_])) for v_ in f_])
+                    if mine != [list(t_) for t_ in per_face[k_]]:
+                        raise Machinery("integer evaluation of the fan descriptor differs from TLC's (face %d, M = %s)" % (k_, M_))
     names = [("tetrahedron", 0, 0), ("cube", 0, 0), ("cuboctahedron", 0, 0), ("truncated_cube", 5, 3)]
     if thorough:
         names += [("tetrahedron", 9, 0), ("truncated_octahedron_split", 0, 0), ("rhombic_dodecahedron", 3, 2), ("cuboctahedron", 11, 5), ("octahedron", 0, 0), ("truncated_cube_split", 17, 0)]
@@ -70,14 +136,14 @@ def run(ctx):
             raise Machinery("catalogue entry %s/r%d/c%d not found" % (name, rot, cut))
         e = es[0]
         nn_used = len(e["nodes"])
-        meshes.append({"id": catalog.eid(e), "nodes": e["nodes"], "faces": e["faces"], "nf": len(e["faces"]), "nn": nn_used, "ne": e["n_edge"], "mixed": len(e["sizes"]) > 1})
+        meshes.append({"id": catalog.eid(e), "nodes": e["nodes"], "faces": e["faces"], "nf": len(e["faces"]), "nn": nn_used, "ne": e["n_edge"], "mixed": len(e["sizes"]) > 1, "scalable": False})
     if not any(m["nf"] == m["nn"] for m in meshes) or not any(m["nf"] == m["ne"] for m in meshes):
         raise Machinery("no coincident-size mesh in the case scope")
     # ---- 2. cases
     gpath = os.path.join(ctx.work, "grids.ndjson")
     with open(gpath, "w") as fh:
         for m in meshes:
-            fh.write(json.dumps({"id": m["id"], "nf": m["nf"], "nn": m["nn"], "ne": m["ne"], "mixed": bool(m["mixed"])}) + "\n")
+            fh.write(json.dumps({"id": m["id"], "nf": m["nf"], "nn": m["nn"], "ne": m["ne"], "mixed": bool(m["mixed"]), "scalable": bool(m["scalable"])}) + "\n")
     r = ctx.tlc_ok("Integrate", "INIT CaseInit\nNEXT CaseNext\n" + consts + "INVARIANT CaseSound\nINVARIANT CaseEmit\nCHECK_DEADLOCK FALSE\n", what="integration cases on %d grids" % len(meshes), workers=workers, env={"GRID_FILE": gpath}, timeout=3000)
     by_mesh = {m["id"]: m for m in meshes}
     cases = []
@@ -97,6 +163,8 @@ def run(ctx):
             cid += "|%s|%s|%s" % (k["layout"], k["storage"], k["api"])
         if k["sel"]:
             cid += "|" + k["sel"]
+        if k["mult"]:
+            cid += "|M%d" % k["mult"]
         cases.append(
             {
                 "id": cid,
@@ -117,6 +185,7 @@ def run(ctx):
                 "api": k["api"],
                 "square": bool(k["square"]),
                 "sel": k["sel"],
+                "mult": int(k["mult"]),
                 "sel_faces": list(k["sel_faces"]),
                 "comp_faces": list(k["comp_faces"]),
                 "expected": exp,
@@ -128,8 +197,10 @@ def run(ctx):
     os.remove(gpath)
     ctx.exhaustive = True
     cases.sort(key=lambda c: c["id"])
-    # ---- 3. replay
+    # ---- 2b. process-global state: several grids opened in one process
     X.warm_up()
+    dims_stage(ctx, thorough, workers)
+    # ---- 3. replay
     t0 = time.time()
     recs = pmap(Y.integrate_case, cases)
     ctx.note("replay_wall_s", round(time.time() - t0, 1))
@@ -138,7 +209,7 @@ def run(ctx):
             raise Machinery(x["machinery"])
     # ---- 4. judge
     path = os.path.join(ctx.work, "integ.ndjson")
-    keys = ("id", "coincident", "expected", "raised", "dims", "name", "same_grid", "is_uxda", "shape", "q", "qlin", "qone", "qpart", "api", "layout", "storage", "square", "prev")
+    keys = ("id", "coincident", "expected", "raised", "dims", "name", "same_grid", "is_uxda", "shape", "q", "qlin", "qone", "qpart", "qx", "mult", "api", "layout", "storage", "square", "prev")
     with open(path, "w") as fh:
         for x in recs:
             fh.write(json.dumps({k: x[k] for k in keys if k in x}) + "\n")
@@ -166,7 +237,7 @@ def run(ctx):
                 cid,
                 clause,
                 detail={k: v for k, v in by_rec[cid].items() if k != "expected"},
-                sig={"sizes": cls, "kind": c["kind"], "api": ax["api"], "layout": ax["layout"], "storage": ax["storage"], "square": bool(ax["square"]), "prev": ax["prev"], "sel": c["sel"]},
+                sig={"sizes": cls, "kind": c["kind"], "api": ax["api"], "layout": ax["layout"], "storage": ax["storage"], "square": bool(ax["square"]), "prev": ax["prev"], "sel": c["sel"], "scaled": bool(ax["mult"])},
                 replay={k: c[k] for k in c},
             )
     ctx.note("cases_by_kind", stats)
@@ -188,5 +259,16 @@ def replay(path):
     X.warm_up()
     for c in data["cases"][:20]:
         print("case", c["key"], "clause", c["clause"])
+        if c["replay"].get("kind") == "dims":
+            import tempfile
+
+            d = tempfile.mkdtemp(dir=os.path.join(os.path.dirname(os.path.dirname(os.path.abspath(__file__))), ".work"))
+            files = {}
+            for fmt, kinds in c["replay"]["opens"]:
+                key = "%s|%s" % (fmt, "+".join(kinds))
+                files[key] = os.path.join(d, key.replace("|", "_").replace("+", "_") + ".nc")
+                Y.dims_write_data(files[key], fmt, kinds)
+            print(json.dumps(Y.dims_case({"id": c["key"], "opens": c["replay"]["opens"], "files": files}), default=str)[:1500])
+            continue
         print(json.dumps(Y.integrate_case(c["replay"]), default=str)[:1500])
     return 0
